@@ -303,6 +303,10 @@ class C09(Property):
                       ["GET", "/" + "L" * 5000], ["GET", "/" + "L" * 4999], ["GET", "/a/" + "v" * 20000 + "/c"],
                       ["GET", "/" + "../" * 400 + "a/b"], ["GET", "/" + "z/" * 400 + "../" * 400 + "a/b", "raw"],
                       ["GET", "/a/:x/c"], ["GET", "/a/%3Ax/c", "raw"], ["GET", "/a//c"], ["GET", "/a/ /c"]]},
+            # the variables of a request stay its own: concurrent requests on variable routes, reads after later requests
+            {"nf": False, "na": False, "regs": [["GET", "/a/:x"], ["GET", "/b/:y/:z"], ["POST", "/a/:x"], ["GET", "/c"]],
+             "reqs": [["GET", "/a/1", "path", "c1"], ["GET", "/b/2/3", "path", "c1"], ["POST", "/a/4", "path", "c1"], ["GET", "/c", "path", "c1"],
+                      ["PUT", "/a/9", "path", ""], ["GET", "/b/5/6", "path", ""], ["GET", "/a/7", "path", "c2"], ["GET", "/a/8", "path", "c2"]]},
             # names that collide: one name twice in a pattern, the same name at different positions of competing routes
             {"nf": False, "na": False,
              "regs": [["GET", "/:x/a/:x"], ["GET", "/:x/b/:y"], ["GET", "/:x/:y/c/:x"], ["POST", "/:a/:a/:a"], ["PUT", "/:/:"]],
@@ -380,7 +384,18 @@ class C09(Property):
                        ["0", "GET", "/t/up", "path"], ["0", "GET", "/x/y/items/5", "path"], ["0", "PUT", "/x/y", "path"],
                        ["0", "GET", "/t/acme/up", "path"], ["0", "GET", "/t", "path"], ["0", "GET", "/t/a%2Fb/items/5", "raw"]]),
         ]
-        return old + new
+        late = [
+            # the handler of the first request is parked, the route timeout answers 503 for it, other requests with
+            # variables (a plain one, a 405 probe, a concurrent batch) are served, then the handler looks again
+            dict(base, tables=[[["GET", "/users/:id/orders/:order"]], [["GET", "/users/:id/profile/:section"], ["GET", "/teams/:id"]]],
+                 servers=[srv(native=True, must=True)],
+                 events=[mount(0, 0, 1, [["shorttimeout"]], single=True), mount(0, 1, 2, []), {"ev": "start", "server": 0}],
+                 reqs=[["0", "GET", "/users/alice/orders/42", "path", "hold"], ["0", "GET", "/teams/red", "path", ""],
+                       ["0", "POST", "/teams/blue", "path", ""], ["0", "GET", "/users/bob/profile/settings", "path", "c1"],
+                       ["0", "GET", "/teams/green", "path", "c1"], ["0", "GET", "/users/carol/orders/7", "path", "hold"],
+                       ["0", "GET", "/users/dave/profile/x", "path", ""]]),
+        ]
+        return old + new + late
 
     SEGS_ODD = ["ab", ":", "a:b", "...", ":xy", "é", "日本", "a b", "%2F", "*", "~", "A", ":X", "x" * 300]
 
@@ -537,6 +552,7 @@ class C09(Property):
                 reqs.append([rng.choice(ms), "/" + "/".join(base[:-1] + [rng.choice(["a", "b", "c"])]), "path"])
             for _ in range(rng.randint(4, 14)):
                 reqs.append(self._request(rng, regs, METHODS if rng.random() < 0.7 else ms))
+            self._batches(rng, reqs)
             c = rng.random()
             cases.append({"nf": c < 0.1, "na": 0.05 < c < 0.15, "regs": regs, "reqs": reqs})
         nserver = max(1, n // 3)
@@ -545,6 +561,17 @@ class C09(Property):
         if tier == "thorough":
             cases += self._exhaustive()
         return cases
+
+    def _batches(self, rng, reqs):
+        """mark runs of consecutive requests as concurrent batches (flag c<n> = last element)"""
+        for rq in reqs:
+            rq.append("")
+        if len(reqs) >= 3 and rng.random() < 0.35:
+            n = rng.randint(2, min(5, len(reqs)))
+            i = rng.randrange(len(reqs) - n + 1)
+            for rq in reqs[i:i + n]:
+                if rq[-1] == "":
+                    rq[-1] = "c1"
 
     PREFIXES = ["", "/", "/api", "/api/", "/v1", "/v2", "/v1/a", "/a", "/b", "/:x", "/a/:y", "/api/../a", "api", "/é", "/v1//x/."]
 
@@ -627,7 +654,23 @@ class C09(Property):
             pool = per[s] if r < 0.6 else (rng.choice(per) if r < 0.75 else (stacked if r < 0.9 else written))
             ms = sorted(set(m for m, _ in per[s] if m in ALL_METHODS)) or METHODS
             reqs.append([str(s)] + self._request(rng, pool, ms + ["OPTIONS"] if servers[s]["cors"] else ms + METHODS))
-        case["reqs"] = reqs
+        # a handler that outlives its request: the route timeout (rest's timeout middleware, native chain) answers
+        # 503 for a request whose handler is parked; other requests are served; then the handler reads its variables
+        held = []
+        if rng.random() < 0.15:
+            cands = [e for e in mounts if any(":" in p for _, p in tables[e["table"]][e["lo"]:e["hi"]])]
+            if cands:
+                e = rng.choice(cands)
+                s = e["server"]
+                servers[s].update(native=True, chain=False)
+                e["opts"] = [o for o in e["opts"] if o[0] not in ("timeout", "sse")] + [["shorttimeout"]]
+                mine = _server_regs({"tables": tables, "events": [e], "servers": servers}, s)
+                mine = [r for r in mine if ":" in r[1] and r[0] in ALL_METHODS and _clean(r[1]) is not None]
+                for m, p in rng.sample(mine, min(len(mine), rng.choice([1, 1, 2]))):
+                    segs = [(rng.choice(["alice", "bob", "42", "é"]) if x.startswith(":") else x) for x in _clean(p)]
+                    held.append([str(s), m, "/" + "/".join(segs), "path", "hold"])
+        self._batches(rng, reqs)
+        case["reqs"] = held + reqs
         return case
 
     def _exhaustive(self):
@@ -683,6 +726,9 @@ class C09(Property):
         # panic / unclassifiable response: nothing the model or the property allows
         return "(RHandler (-1) [])"
 
+    def _late(self, r):
+        return clist([clist(["(%s, %s)" % (cstr(a), cstr(b)) for a, b in rd]) for rd in (r.get("late") or [])])
+
     def _sresp(self, r):
         if r["k"] == "cors204":
             return "SCors204"
@@ -717,8 +763,8 @@ class C09(Property):
         for rq, r in zip(case["reqs"], obs["res"]):
             if r["k"] in ("down", "badreq"):
                 continue      # the server did not start / net/http rejected the request line: nothing was routed
-            reqs.append("mkSReq %d %s %s %s %s" % (int(rq[0]), cstr(rq[1]), cstr(r["path"]), self._sresp(r),
-                                                   clist([cz(t) for t in r.get("mws") or []])))
+            reqs.append("mkSReq %d %s %s %s %s %s" % (int(rq[0]), cstr(rq[1]), cstr(r["path"]), self._sresp(r),
+                                                      clist([cz(t) for t in r.get("mws") or []]), self._late(r)))
         return "CServer (mkSCase %s %s %s %s %s %s %s %s)" % (clist(tables), cfgs, clist(evs), starts, routes, printed, after, clist(reqs))
 
     def coq_case(self, case, obs):
@@ -727,7 +773,7 @@ class C09(Property):
         regs = clist(["mkReg %s %s %s" % (cstr(m), cstr(p), cz(i)) for i, (m, p) in enumerate(case["regs"])])
         regobs = clist([REGERR.get(e, "RegOther") for e in obs["regerr"]])
         pclean = clist([cstr(s) for s in obs["pclean"]])
-        reqs = clist(["mkReq %s %s %s %s" % (cstr(rq[0]), cstr(r["path"]), cstr(r["clean"]), self._resp(r))
+        reqs = clist(["mkReq %s %s %s %s %s" % (cstr(rq[0]), cstr(r["path"]), cstr(r["clean"]), self._resp(r), self._late(r))
                       for rq, r in zip(case["reqs"], obs["res"]) if r["k"] != "badreq"])
         return "CRouter (mkCase %s %s %s %s %s %s)" % (cbool(case["nf"]), cbool(case["na"]), regs, regobs, pclean, reqs)
 
@@ -796,6 +842,12 @@ class C09(Property):
             fs.append("non_ascii_path")
         if any(len(r["vars"]) >= 2 for r in obs["res"]):
             fs.append("vars>=2")
+        if any(r.get("held") for r in obs["res"]):
+            fs.append("handler_outlives_timeout")
+        if any(rq[-1].startswith("c") for rq in case["reqs"] if len(rq) > 3 and isinstance(rq[-1], str) and rq[-1] not in ("path", "raw")):
+            fs.append("concurrent_batch")
+        if any(len(r.get("late") or []) >= 1 and r["vars"] for r in obs["res"]):
+            fs.append("late_reads_of_vars")
         if any(r["k"] == "na" and len(r["allow"]) >= 2 for r in obs["res"]):
             fs.append("allow>=2")
         return fs
@@ -809,6 +861,9 @@ class C09(Property):
         if len(reqs) > 2:
             for i in range(len(reqs)):
                 res.append(dict(case, reqs=[reqs[i]]))
+        for i, rq in enumerate(reqs):
+            if len(rq) > 4 and rq[4].startswith("c"):
+                res.append(dict(case, reqs=reqs[:i] + [rq[:4] + [""]] + reqs[i + 1:]))
         for i, e in enumerate(events):
             if e["ev"] != "mount":
                 continue
@@ -868,7 +923,10 @@ class C09(Property):
                 continue
             c = _clean(p)
             if c is not None and "/" + "/".join(c) != p:
-                res.append(dict(case, reqs=reqs[:i] + [[m, "/" + "/".join(c), "path"]] + reqs[i + 1:]))
+                res.append(dict(case, reqs=reqs[:i] + [[m, "/" + "/".join(c), "path"] + rq[3:]] + reqs[i + 1:]))
+        for i, rq in enumerate(reqs):
+            if len(rq) > 3 and rq[3]:
+                res.append(dict(case, reqs=reqs[:i] + [rq[:3] + [""]] + reqs[i + 1:]))
         if case["nf"] or case["na"]:
             res.append(dict(case, nf=False, na=False))
         return res[:300]
